@@ -8,8 +8,8 @@ CONSTANTS
   VoidNames = {"img", "br", "input", "wbr"}
   AttrChoices <- AttrChoicesSmall
   WsChoices = {"", "h", "v"}
-  Words = {"w1", "w2", "w3"}
-  Exprs = {"E1"}
+  Words = {"w1", "w2", "w3", "w4"}
+  Exprs = {"E1", "E3"}
   Conds = {"C1", "C2"}
   Lists = {"L1"}
   EnvSeq <- EnvSeqDef
